@@ -55,12 +55,12 @@ Stop == /\ ~stopped /\ EnvOK /\ Len(hist) >= MinSteps
         /\ stopped' = TRUE /\ UNCHANGED <<vars, hist, nh>>
 DrainRelease == /\ stopped /\ EnvOK /\ gates # {}
                 /\ gates' = {}
-                /\ UNCHANGED <<now, ver, ref, refDue, orph, cbs, sess, lsub, rsub, usub, pun, chan, nq, hnd, cache, call, handled, race, budget, ent, got, bad>>
+                /\ UNCHANGED <<now, ver, ref, refDue, orph, cbs, sess, lsub, rsub, usub, pun, chan, nq, hnd, cache, cgen, call, handled, race, budget, ent, got, bad>>
                 /\ Same
 DrainTick == /\ stopped /\ EnvOK /\ gates = {} /\ now < MaxTime + D
              /\ \E n \in Notifs : TimerArmed(n)
              /\ now' = now + 1
-             /\ UNCHANGED <<ver, ref, refDue, orph, cbs, sess, lsub, rsub, usub, pun, chan, nq, hnd, cache, call, handled, gates, race, budget, ent, got, bad>>
+             /\ UNCHANGED <<ver, ref, refDue, orph, cbs, sess, lsub, rsub, usub, pun, chan, nq, hnd, cache, cgen, call, handled, gates, race, budget, ent, got, bad>>
              /\ Same
 
 GenNext == GenSdk \/ GenEnv \/ Stop \/ DrainRelease \/ DrainTick
